@@ -165,3 +165,23 @@ package skchia
 //@   assert-at call getWsByFlags selects-by-the-flags-it-was-given: arg0 == sk.workSpaceList && arg1 == old(flags)
 //@   assert-at call DeleteWS applies-the-action-to-each-selected-space: arg1 == lastresult("String")
 //@   assert-at call String id-of-the-selected-space: arg0 == lastresult("getWsByFlags")[#iter].id
+
+// ---- state queries agree with the flag filter (C09): both queries list the configured spaces (workSpaceList), all of
+// them for SFAll and otherwise exactly those getWsByFlags selects from that list for the flags asked, one entry each,
+// in order
+//@ func (*SpaceKeeper).WorkSpaceInfos
+//@   requires lock-entry: skUnlocked(sk)
+//@   assert-at call getWsByFlags selects-from-the-configured-list-by-the-flags-asked: arg0 == sk.workSpaceList && arg1 == flags
+//@   assert-at call Info#1 every-configured-space-in-order: arg0 == sk.workSpaceList[#iter]
+//@   assert-at call Info#2 every-selected-space-in-order: arg0 == lastresult("getWsByFlags")[#iter]
+//@   assert-at return#1 one-entry-per-configured-space: len(result0) == len(sk.workSpaceList)
+//@   assert-at return#2 one-entry-per-selected-space: len(result0) == len(lastresult("getWsByFlags"))
+//@   loop #2 invariant one-entry-per-visited-space: len(result) == #iter
+//@ func (*SpaceKeeper).WorkSpaceIDs
+//@   requires lock-entry: skUnlocked(sk)
+//@   assert-at call getWsByFlags selects-from-the-configured-list-by-the-flags-asked: arg0 == sk.workSpaceList && arg1 == flags
+//@   assert-at call String#1 every-configured-space-in-order: arg0 == sk.workSpaceList[#iter].id
+//@   assert-at call String#2 every-selected-space-in-order: arg0 == lastresult("getWsByFlags")[#iter].id
+//@   assert-at return#1 one-entry-per-configured-space: len(result0) == len(sk.workSpaceList)
+//@   assert-at return#2 one-entry-per-selected-space: len(result0) == len(lastresult("getWsByFlags"))
+//@   loop #2 invariant one-entry-per-visited-space: len(result) == #iter
